@@ -413,6 +413,13 @@ def replay(pid, cfg, path, workdir):
         print("\n".join(probs))
         return 2
     case = d["case"]
+    if isinstance(case, str):
+        # a finding of one of the stand-alone tests of harness/seqx: the replay is the command itself
+        import subprocess as _sp
+        print("replaying:", case)
+        pr = _sp.run(case, shell=True, stdout=_sp.PIPE, stderr=_sp.STDOUT, timeout=1200)
+        print(pr.stdout.decode(errors="replace")[-3000:])
+        return 1 if pr.returncode != 0 else 0
     rc, results, err = _run_cases([case], workdir, "replay")
     print("case:", json.dumps(case))
     print("implementation:", json.dumps(results[0] if results else err)[:4000])
